@@ -68,3 +68,25 @@ _b("C17", "bounded stand-in: exhaustive split specifications against an exact-in
 _b("C18", "bounded stand-in: concatenation, history and hash-seed experiments through the API and the CLI",
    "Sentence-local, deterministic, history-independent processing.",
    "bounded exploration", "5 C18")
+
+_b("C01", "bounded stand-in: readers against independent reference decoders on corpora rendered by our own encoders; all token-class sequences up to length L for the bracket automaton",
+   "Readers decode faithfully; ill-formed bracket groups are rejected.",
+   "bounded exploration; bracket token-class sequences exhaustive up to length 7 (quick) / 9 (thorough)", "5 C01")
+_b("C02", "bounded stand-in: writer output decoded by independent decoders and compared with the tree spec, all option subsets",
+   "Writers encode faithfully.",
+   "bounded exploration over shapes n<=4 x all documented option subsets", "5 C02")
+_b("C03", "bounded stand-in: the real CLI as a subprocess over all 4x5 format pairs, chains, encodings, gzip, directory mode",
+   "Any-to-any conversion through the command line.",
+   "bounded exploration (about 190 CLI runs in the quick tier)", "5 C03")
+_b("C06", "bounded stand-in: grammar extraction against a spec-based reference and the instantiate-and-compare oracle",
+   "Grammar extraction is faithful to the treebank.",
+   "bounded exploration", "5 C06")
+_b("C07", "bounded stand-in: compose() of binarization chains == original linearization, exhaustive rule space rank<=4 / <=6 variables",
+   "Binarization preserves every rule's yield function.",
+   "bounded exploration; rule space exhaustive up to the bound in the thorough tier (rank<=5, <=8 variables)", "5 C07")
+_b("C08", "bounded stand-in: count conservation equations on enumerated treebanks x all grammar types",
+   "Counts are conserved through extraction and binarization.",
+   "bounded exploration", "5 C08")
+_b("C09", "bounded stand-in: grammar files decoded by the tool's reader / independent decoders; CLI grammar input",
+   "Grammar files decode to the grammar in memory.",
+   "bounded exploration", "5 C09")
